@@ -94,6 +94,12 @@ def exec_path(eng, fi, c, instance):
     if c.closure_env:
         parent = Frame(fi.parent)
         for name, tys in c.closure_env.items():
+            if tys == 'closure':
+                sib = fi.parent.nested.get(name) if fi.parent is not None else None
+                if sib is None:
+                    raise Unsupported('closure %s not found next to %s' % (name, fi.qualname))
+                parent.vars[name] = PyObj('closure', sib, parent)
+                continue
             ty = T.parse_ty(tys)
             v = V(ty, z3.Const(name, T.sort_of(ty)))
             parent.vars[name] = v
@@ -152,13 +158,14 @@ def finish(eng, fi, c, fr, outcome):
         else:
             try:
                 ret_ty = c.extra['dep_ret'](eng, fr.ghost_inputs) if 'dep_ret' in c.extra else c.ret_ty
-                res = T.coerce(v, ret_ty) if isinstance(v, V) else v
+                res = (T.coerce(v, ret_ty) if ret_ty != ANY else v) if isinstance(v, V) else v
             except T.TypeMismatch as e:
                 eng.prove('type.result', z3.BoolVal(False), kind='type', note=str(e), props=c.props)
                 return
         fr.ghost['result'] = res
         eng.B.unit_exit(eng, fi, c, fr, outcome)
         fr_post = entry_frame(fr)     # parameter names in postconditions denote entry values
+        eng.forall_mode = 'prove'
         for name, e in c.ensures.items():
             eng.prove('post.' + name.split('[')[0], eng.pure_bool(e, fr_post), kind='post', props=c.clause_props(name),
                       assume_after=False)
@@ -167,6 +174,7 @@ def finish(eng, fi, c, fr, outcome):
                 fr0 = entry_frame(fr)
                 eng.prove('post.noraise.' + exc_name.split('[')[0], z3.Not(eng.pure_bool(cond[4:], fr0)),
                           kind='post', props=c.clause_props(exc_name))
+        eng.forall_mode = 'assume'
         eng.cover('cover.return')
     else:
         e = outcome[1]
@@ -188,8 +196,13 @@ def finish(eng, fi, c, fr, outcome):
         eng.prove('xpost.' + exc_name.split('[')[0], eng.pure_bool(cond, fr0), kind='xpost',
                   props=c.clause_props(exc_name))
         for name, ex in c.extra.get('partial', {}).items():
+            only = None
+            if isinstance(ex, tuple):
+                only, ex = ex
+            if only is not None and not eng.exc.issub(e.cls, only):
+                continue
             eng.prove('xpost.partial.' + name.split('[')[0], eng.pure_bool(ex, fr), kind='xpost',
-                      props=c.clause_props(name))
+                      props=c.clause_props(name), assume_after=False)
 
 
 def entry_frame(fr):
